@@ -15,12 +15,12 @@ from __future__ import annotations
 from engine.common import AnalysisError
 from .shared import models, rule_skeleton
 from .fusion import FusionEngine, fusion_rule, K
-from .c20 import guard_transcriptions
+from .c20 import guard_transcriptions, guard_tokens
 
 
 def run(report, index, tier):
     M = models(index)
-    guard_transcriptions(index, M)
+    guard_transcriptions(index, M, report, 'R02.7', strict=False)
     report.explanation = (
         'Round-trip induction decided premise by premise on tables: '
         'skeleton agreement of definitions and productions, absence of '
@@ -29,6 +29,7 @@ def run(report, index, tier):
         'handlers evaluated abstractly, re-lexing decided on automata of '
         'the token regexes), and the semicolon-dropping contexts.')
     rule_skeleton(report, index, 'R02.1')
+    guard_tokens(report, index, M, 'R02.6')
     E = FusionEngine(index)
     for drop in (False, True):
         handlers = E.table('minify', drop_semi=drop)
